@@ -36,6 +36,7 @@ type Prog struct {
 	// lineMap: for files that were printed again by the normaliser, the original line of each new line
 	lineMap   map[*token.File][]int
 	normNotes []string
+	stripped  int // logging statements removed before the rules ran
 }
 
 // Load loads ./... of dir. With deps=true the whole dependency closure is loaded from source
@@ -91,6 +92,9 @@ func Load(dir string, deps bool, extraEnv ...string) (*Prog, error) {
 		}
 		if normaliseCmp {
 			normaliseComparisons(pk)
+		}
+		if !keepLogging {
+			p.stripped += stripLogging(pk)
 		}
 		p.indexPkg(pk)
 	}
@@ -496,4 +500,125 @@ func (f *Func) Recv() *types.Var {
 	}
 	v, _ := f.Info().Defs[f.Decl.Recv.List[0].Names[0]].(*types.Var)
 	return v
+}
+
+// keepLogging disables stripLogging (the source transformations of refactor.go print the tree as it is).
+var keepLogging = false
+
+// stripLogging removes statements that only log: calls of package log / log/slog functions and of *slog.Logger /
+// *log.Logger methods whose arguments are evaluated without side effects. No property talks about log output, and no
+// rule looks at it; taking these statements out of the analysed program means that adding, moving or rewording a log
+// line can never change a verdict. (Arguments may call fmt.Sprint*, len/cap, conversions and niladic accessor methods;
+// any other call in an argument keeps the statement.)
+func stripLogging(pk *packages.Package) int {
+	info := pk.TypesInfo
+	isLogPkg := func(p *types.Package) bool {
+		return p != nil && (p.Path() == "log" || p.Path() == "log/slog")
+	}
+	var harmless func(e ast.Expr) bool
+	harmless = func(e ast.Expr) bool {
+		ok := true
+		ast.Inspect(e, func(n ast.Node) bool {
+			switch x := n.(type) {
+			case *ast.FuncLit:
+				ok = false
+			case *ast.UnaryExpr:
+				if x.Op == token.ARROW {
+					ok = false
+				}
+			case *ast.CallExpr:
+				if tv, isT := info.Types[x.Fun]; isT && tv.IsType() {
+					return true
+				}
+				var id *ast.Ident
+				switch f := ast.Unparen(x.Fun).(type) {
+				case *ast.Ident:
+					id = f
+				case *ast.SelectorExpr:
+					id = f.Sel
+				}
+				if id == nil {
+					ok = false
+					return false
+				}
+				switch o := info.Uses[id].(type) {
+				case *types.Builtin:
+					if o.Name() != "len" && o.Name() != "cap" {
+						ok = false
+					}
+				case *types.Func:
+					sig := o.Type().(*types.Signature)
+					switch {
+					case o.Pkg() != nil && o.Pkg().Path() == "fmt" && strings.HasPrefix(o.Name(), "Sprint"):
+					case isLogPkg(o.Pkg()):
+					case sig.Recv() != nil && sig.Params().Len() == 0 && sig.Results().Len() == 1:
+						// niladic accessor (Error, String, ID, SessionID, Raw, …)
+					default:
+						ok = false
+					}
+				default:
+					ok = false
+				}
+			}
+			return ok
+		})
+		return ok
+	}
+	isLogStmt := func(st ast.Stmt) bool {
+		es, ok := st.(*ast.ExprStmt)
+		if !ok {
+			return false
+		}
+		call, ok := es.X.(*ast.CallExpr)
+		if !ok {
+			return false
+		}
+		sel, ok := ast.Unparen(call.Fun).(*ast.SelectorExpr)
+		if !ok {
+			return false
+		}
+		fn, _ := info.Uses[sel.Sel].(*types.Func)
+		if fn == nil || !isLogPkg(fn.Pkg()) {
+			return false
+		}
+		switch fn.Name() {
+		case "Fatal", "Fatalf", "Fatalln", "Panic", "Panicf", "Panicln":
+			return false // these do not return
+		}
+		if !harmless(sel.X) {
+			return false
+		}
+		for _, a := range call.Args {
+			if !harmless(a) {
+				return false
+			}
+		}
+		return true
+	}
+	n := 0
+	strip := func(list []ast.Stmt) []ast.Stmt {
+		out := list[:0:0]
+		for _, st := range list {
+			if isLogStmt(st) {
+				n++
+				continue
+			}
+			out = append(out, st)
+		}
+		return out
+	}
+	for _, f := range pk.Syntax {
+		ast.Inspect(f, func(x ast.Node) bool {
+			switch b := x.(type) {
+			case *ast.BlockStmt:
+				b.List = strip(b.List)
+			case *ast.CaseClause:
+				b.Body = strip(b.Body)
+			case *ast.CommClause:
+				b.Body = strip(b.Body)
+			}
+			return true
+		})
+	}
+	return n
 }
